@@ -22,7 +22,8 @@ THEOREMS = {"Proofs.C16": ["VerifModel.C16." + t for t in [
     "C16_counts_total_last", "C16_counts_total_reliability", "C16_counts_total_first", "C16_counts_total_pithist",
     "C16_series_order", "C16_series_order_groups",
     "C16_series_labels", "C16_def_qq", "C16_def_sort", "C16_def_obsfcst", "C16_obsfcst_layout", "C16_def_marginal",
-    "C16_def_reliability", "C16_relCases", "C16_invrelCases", "C16_def_invreliability", "C16_def_spreadskill",
+    "C16_def_reliability", "C16_relCases", "C16_invrelCases", "C16_def_invreliability", "C16_def_invreliability_levels",
+    "C16_invreliability_levels_order", "C16_def_spreadskill",
     "C16_def_discrimination", "C16_def_roc_point", "C16_def_roc", "C16_roc_endpoints", "C16_def_pithist",
     "C16_pithist_bar_position", "C16_def_hist", "C16_def_freq", "C16_def_cond", "C16_def_performance",
     "C16_def_error", "C16_def_standard", "C16_def_bsdecomp", "C16_bsCases",
@@ -75,7 +76,12 @@ RULE = ("diag.artists: for each of 28 diagrams random datasets (deterministic / 
         "from the axes and compared exactly with Model.fillPolygon and with the rule written out in judge_fill: every "
         "missingness pattern of (lower, upper) for n <= 3 (quick: 85) / n <= 4 (thorough: 341), every pattern with a NaN in x for "
         "n <= 2 (52), 150 / 1500 random envelopes of length 4-14 with independent NaNs in lower, upper and x, unsorted x, "
-        "+-inf, lower == upper. The band polygons of obsfcst -q (2 or 3 levels, also in descending order) and meteo are read "
+        "+-inf, lower == upper. invreliability is drawn with one level or with 2-3 levels of -q in any order (60% of its "
+        "random ops, also in diag.sequence and diag.cli), and on 24 / 144 further datasets — every ordered choice of two or "
+        "three of the levels 0.25, 0.5, 0.75 x 1-2 (thorough: 3) inputs — whose quantile columns occupy different bins (25% values "
+        "low, 75% values high, a rare stray value; 5 edge sets, one with a bin no level reaches), so that a bin well populated at "
+        "one level is empty or holds a single case at another: each curve must be the statistic of its own level (no point "
+        "below two cases, x = 0 in an empty bin; kind point-of-other-level otherwise). The band polygons of obsfcst -q (2 or 3 levels, also in descending order) and meteo are read "
         "back in diag.artists / diag.cli too, on 16 / 130 extra datasets per diagram (and a third of diag.cli) whose quantile "
         "columns lose whole lead times (times, locations) independently, so that the two quantile lines are missing at different x. "
         "diag.sequence: 2-3 diagrams drawn one after the other from ONE verif.data.Data object through the real verif.output "
@@ -93,7 +99,9 @@ LEVEL_TEXT = ("Lean theorems: for the bin convention each diagram actually uses,
               "Discrimination, IgnContrib, Scatter, util.bin — half-open bins, the last one closed; SpreadSkill — bins "
               "(lo, hi], the first one closed; BsDecomp; Hist/Freq/Cond) and the bin counts sum to the cases in range; PitHist "
               "bars span their bins; one series (group) per input in input "
-              "order; the modelled series of 19 diagrams equal their defining statistics (reliability, invreliability, "
+              "order; the modelled series of 19 diagrams equal their defining statistics (reliability, invreliability "
+              "— with several levels of -q the figure is, level by level in -q order, one curve per input, the curve at position "
+              "t*F+k being the statistic of the cases of level t and input k alone —, "
               "discrimination, roc incl. end points, qq, sort, obsfcst, marginal, hist, freq, cond, pithist heights, "
               "spreadskill, bsdecomp, performance, taylor, error incl. the sign of the bias, standard mae/bias/rmse); the shaded "
               "band of util.fill (all inputs): its vertices are exactly the valid (x, lower) points in order followed by the valid "
@@ -173,6 +181,26 @@ EDGES_P = [[0.0, 0.25, 0.5, 0.75, 1.0], [0.0, 0.5, 1.0], [0.0, 0.125, 0.375, 0.8
 AXES = ["leadtime", "location", "time", "leadtimeday", "elev"]
 
 
+# every ordered choice of two or three of the stored quantile levels
+INVREL_LEVELS = [(a, b) for a in (0.25, 0.5, 0.75) for b in (0.25, 0.5, 0.75) if a != b] + \
+                [(a, b, c) for a in (0.25, 0.5, 0.75) for b in (0.25, 0.5, 0.75) for c in (0.25, 0.5, 0.75) if len({a, b, c}) == 3]
+INVREL_EDGES = [[0.0, 1.0, 2.0, 3.0], [0.0, 0.5, 1.5, 3.0], [0.0, 1.0, 2.0, 3.0, 4.0], [-1.0, 1.0, 4.0], [0.5, 1.0, 2.0]]
+INVREL_VALUES = {0.25: [0.0, 0.0, 0.5, 0.5, 1.0, 1.5], 0.5: [1.0, 1.0, 1.5, 1.5, 1.5, 2.0], 0.75: [2.0, 2.0, 3.0, 3.0, 2.0, 1.5]}
+
+
+def gen_invrel_levels(rng, F):
+    """a probabilistic dataset whose quantile columns live in different bins: the 25% values are low, the 75% values
+    high, with a rare stray value, so that with the edges INVREL_EDGES a bin that is well populated at one level is
+    empty or holds a single case at another level (where the curve of that level must have no point)"""
+    ds = _with_cases(rng, "prob", F, False)
+    for I in ds.inputs:
+        for lev, vals in INVREL_VALUES.items():
+            a = I["q@" + xr(lev)]
+            new = np.array([rng.choice(vals) for _ in range(a.size)], float).reshape(a.shape)
+            I["q@" + xr(lev)] = np.where(np.isnan(a), np.nan, new)
+    return ds
+
+
 def gen_options(rng, name, ds, band=False):
     o = {}
     if name in ("reliability", "discrimination", "roc", "igncontrib", "murphy", "economicvalue", "bsdecomp"):
@@ -206,7 +234,8 @@ def gen_options(rng, name, ds, band=False):
         if rng.random() < 0.6:
             o["b"] = rng.choice(["above", "above=", "below", "below="])
     elif name == "invreliability":
-        o["q"] = [rng.choice([0.25, 0.5, 0.75])]
+        # one level, or several levels in one diagram (-q a,b[,c], any order): one group of curves per level
+        o["q"] = [rng.choice([0.25, 0.5, 0.75])] if rng.random() < 0.4 else list(rng.choice(INVREL_LEVELS))
         o["r"] = rng.choice(EDGES_DET)
     elif name == "spreadskill":
         o["r"] = rng.choice([[0.0, 0.5, 1.0, 3.0], [0.0, 1.0, 2.0], [-1.0, 0.5, 1.5, 3.0]])
@@ -388,14 +417,24 @@ def gen_ops(tier, rng):
                 ds = _with_cases(rng, kind, F, name in BIG)
                 o = gen_options(rng, name, ds)
                 yield "diag.artists", D.enc_op(name, o, ds)
-    # the shaded band between quantile lines that are missing at different x (obsfcst -q, meteo)
+    # invreliability with several quantile levels whose values occupy different bins: every ordered choice of 2 or 3
+    # levels x 1 or 2 inputs (quick: 24 ops)
+    for rep in range(1 if tier == "quick" else 6):
+        for j, levels in enumerate(INVREL_LEVELS):
+            for F in (1, 2):
+                ds = gen_invrel_levels(rng, F if rep < 3 else 3)
+                o = {"q": list(levels), "r": INVREL_EDGES[(j + F + rep) % len(INVREL_EDGES)]}
+                if rng.random() < 0.3:
+                    o["simple"] = True
+                yield "diag.artists", D.enc_op("invreliability", o, ds)
     for name in ("obsfcst", "meteo"):
         for _ in range(reps):
             ds = _with_cases(rng, "prob", 1 if name == "meteo" else None, False, band=True)
             o = gen_options(rng, name, ds, band=True)
             yield "diag.artists", D.enc_op(name, o, ds)
     for k in range(30 if tier == "quick" else 300):
-        name = rng.choice(["reliability", "roc", "qq", "obsfcst", "pithist", "cond", "taylor", "hist", "marginal", "standard"])
+        name = rng.choice(["reliability", "roc", "qq", "obsfcst", "pithist", "cond", "taylor", "hist", "marginal", "standard",
+                           "invreliability"])
         band = False
         if k % 3 == 0:
             name, band = rng.choice(["obsfcst", "meteo"]), True
@@ -511,8 +550,9 @@ def lean_op(op):
                     sl = _slices(data, [vf.Obs(), vf.Threshold(o["r"][0])], f, o.get("x", "none"))
                     d["obs"], d["p"] = [s[0] for s in sl], [s[1] for s in sl]
                 elif name == "invreliability":
-                    s = data.get_scores([vf.Obs(), vf.Quantile(o["q"][0])], f, verif.axis.No())
-                    d["obs"], d["q"] = [s[0]], [s[1]]
+                    for j, q in enumerate(o["q"]):       # every level of -q has its own valid cases
+                        s = data.get_scores([vf.Obs(), vf.Quantile(q)], f, verif.axis.No())
+                        d["obs%d" % j], d["q%d" % j] = [s[0]], [s[1]]
                 elif name == "pithist":
                     d["pit"] = data.get_scores([vf.Pit()], f, verif.axis.No())
                 elif name == "spreadskill":
@@ -640,10 +680,21 @@ def judge(op, impl_out, spec_out):
         kind = "bar-position"
     elif name == "error" and okx and _vec_close(g[4], [-v for v in w[4]], 1e-7, 1e-9):
         kind = "bias-sign"
+    elif name == "invreliability" and len(o["q"]) > 1 and len(g[4]) == len(w[4]) and len(g[3]) == len(w[3]) and \
+            any((y != y and d == d) or (x == 0 and y != y and dx != 0) for dx, d, x, y in zip(g[3], g[4], w[3], w[4])):
+        # a point where the level of this curve has fewer than two cases (or x != 0 in a bin without any case)
+        F = len(ds.inputs)
+        t, f = divmod([id(u) for u in got].index(id(g)), F)
+        bins = [i for i, (dx, d, x, y) in enumerate(zip(g[3], g[4], w[3], w[4]))
+                if (y != y and d == d) or (x == 0 and y != y and dx != 0)]
+        return (dict(sig, kind="point-of-other-level"),
+                "%s %s: the curve of quantile level %g (number %d of -q), input %d has a point in bin(s) %s where that level "
+                "has fewer than two cases: drawn x=%s y=%s, the level's own statistics are x=%s y=%s" %
+                (name, a[2], o["q"][t], t + 1, f, bins, _fmt(g[3]), _fmt(g[4]), _fmt(w[3]), _fmt(w[4])))
     elif bv is not None and any(O.edge_values(bv[0], v, bv[1]) for v in bv[2]):
         kind = "case-in-no-bin"
         lost = [O.edge_values(bv[0], v, bv[1]) for v in bv[2]]
-        return (dict(sig, kind=kind), "%s %s: %s valid case(s) per input with value equal to the %s edge %g of the binned range are "
+        return (dict(sig, kind=kind), "%s %s: %s valid case(s) per input (and level of -q) with value equal to the %s edge %g of the binned range are "
                 "in no bin (series '%s': drawn x=%s y=%s, with every case binned x=%s y=%s)" %
                 (name, a[2], lost, "last" if bv[1] == "ho" else "first", bv[0][-1] if bv[1] == "ho" else bv[0][0], g[2],
                  _fmt(g[3]), _fmt(g[4]), _fmt(w[3] or []), _fmt(w[4])))
